@@ -10,7 +10,7 @@ pub mod thread;
 pub mod time;
 
 pub use kernel::{
-    count_fault, hash_bytes, now_ns, quiesce, sleep_ns, Census, ConnCtl, ConnEv, Ctl, ConnFaults, ConnInfo, ConnRec,
+    count_fault, hash_bytes, yield_now, now_ns, quiesce, sleep_ns, Census, ConnCtl, ConnEv, Ctl, ConnFaults, ConnInfo, ConnRec,
     ConnectBehaviour, ConnectRec, History, Peer, PeerFactory, RunOutcome, Sim, SimConfig, ThreadRec, NS_PER_MS,
     NS_PER_S,
 };
